@@ -159,7 +159,15 @@ func TestC12(t *testing.T) {
 		for i := 0; i < prefix; i++ {
 			if withSig && i == prefix/2 && rapid.Bool().Draw(t, "sigdata") {
 				// stored signature data is placed with the module's public message server inside a block (DESIGN §2.6)
-				_ = sigkeeper.NewMsgServerImpl
+				d.afterBegin = func(c *Chain) {
+					srv := sigkeeper.NewMsgServerImpl(c.App.CfesignatureKeeper)
+					g := sdk.WrapSDKContext(c.DeliverCtx())
+					ref := strings.Repeat("ab", 32)
+					_, _ = srv.PublishReferencePayloadLink(g, &sigtypes.MsgPublishReferencePayloadLink{Creator: KeyAcc(1).Addr.String(), Key: sha256hex(ref), Value: "link"})
+					_, _ = srv.StoreSignature(g, &sigtypes.MsgStoreSignature{Creator: KeyAcc(1).Addr.String(), StorageKey: sha256hex(KeyAcc(1).Addr.String() + ":" + ref),
+						SignatureJSON: `{"signature":"AAAA","algorithm":"ecdsaWithSha256","certificate":"x"}`})
+					d.sigData++
+				}
 			}
 			bt := d.genBlock(fmt.Sprintf("p%d", i))
 			if strings.Contains(bt.BeginEvs, "burn{") {
